@@ -867,6 +867,31 @@ theorem smartUsage_isSome (c : Cmd) (u : UInfo) (ok : UsageOk c) (used : List Id
   | some x => rfl
 
 
+/-! ### the tree version (`flatten_help`) -/
+
+/-- without `flatten_help` (or without a visible subcommand) the tree version is the one-level usage line the theorems
+above are about -/
+theorem helpUsageTree_plain (fuel : Nat) (c : Cmd) (t : UTree) (bin : Bytes)
+    (ho : t.info.overrideUsage = none) (hf : (hasVisibleSubs c t.info && t.flatten) = false) :
+    helpUsageTree (fuel + 1) c t bin = writeHelpUsage c t.info (requiredGraph c) := by
+  unfold helpUsageTree
+  simp only [ho, hf, Bool.false_eq_true, ↓reduceIte]
+
+/-- an `override_usage` is written as it is, at every level, flattened or not -/
+theorem helpUsageTree_override (fuel : Nat) (c : Cmd) (t : UTree) (bin o : Bytes) (ho : t.info.overrideUsage = some o) :
+    helpUsageTree (fuel + 1) c t bin = some o := by
+  unfold helpUsageTree
+  simp only [ho]
+
+/-- `render_usage()` of a level without `flatten_help` is `renderUsage` -/
+theorem renderUsageTree_plain (fuel : Nat) (c : Cmd) (t : UTree) (bin : Bytes)
+    (hf : (hasVisibleSubs c t.info && t.flatten) = false) :
+    renderUsageTree (fuel + 1) c t bin = renderUsage c t.info := by
+  unfold renderUsageTree renderUsage usageWithTitle usageNoTitle
+  cases ho : t.info.overrideUsage with
+  | some o => rw [helpUsageTree_override fuel c t bin o ho]
+  | none => rw [helpUsageTree_plain fuel c t bin ho hf]; simp
+
 /-! ### non-vacuity: a concrete level meets `UsageOk`, and its usage line is the expected one -/
 
 /-- `prog --out <out> [in]` with a hidden optional flag `-q` and a hidden optional positional `secret` -/
